@@ -105,8 +105,11 @@ def run(ctx, spec):
         _recheck(ctx, rrng, last, r)
         last = {}
   _recheck(ctx, rrng, last, r)
-  ctx.sample({'generator': names[spec['part'] % len(names)], 'n': n,
-              'seed': seed})
+  try:
+    ctx.sample({'generator': names[spec['part'] % len(names)], 'n': n,
+                'seed': seed})
+  except NameError:
+    pass
 
 
 def _recheck(ctx, rrng, last, r):
